@@ -13,6 +13,12 @@ def parseIOp (s : String) : Option Op :=
   | ["K", w] => do some (.replace (← w.toNat?))
   | _ => none
 
+/-- `B:<w>:<k>` stands for k tasks of zero duration on worker w (large counts without long lines) -/
+def parseIOps (s : String) : Option (List Op) :=
+  match s.splitOn ":" with
+  | ["B", w, k] => do some (List.replicate (← k.toNat?) (.task (← w.toNat?) 0 ""))
+  | _ => (parseIOp s).map fun o => [o]
+
 def showEntries (l : List Entry) : String :=
   let sorted := l.mergeSort fun a b => entryLe a b
   ";".intercalate (sorted.map fun (d, a) => s!"{d}:{if a == "" then "_" else a}")
@@ -21,7 +27,7 @@ def showEntries (l : List Entry) : String :=
 history. -/
 def handleInsAcc (fs : List (String × String)) : Option String := do
   let os ← get fs "ops"
-  let ops ← if os == "-" || os == "" then some [] else (os.splitOn ",").mapM parseIOp
+  let ops ← if os == "-" || os == "" then some [] else ((os.splitOn ",").mapM parseIOps).map List.flatten
   let s := run ops
   some s!"ok counts={showNats (counts s)} own={"|".intercalate (s.map fun x => showEntries x.own)} pub={"|".intercalate (s.map fun x => showEntries x.pub)}"
 
